@@ -2,6 +2,7 @@ import Robust.Irc.Proofs.Clean
 import Robust.Irc.Proofs.CleanEntry
 import Robust.Irc.Proofs.UlenRelay
 import Robust.Irc.Proofs.RcptCheck
+import Robust.Irc.Proofs.CmdEntry
 import Robust.Gen.Exprs
 /-!
 # C15 — every line sent to clients is a single well-formed IRC line
@@ -263,6 +264,10 @@ characters).
 * (b) the prefix of a stored client session has at most 178 bytes and no space.
 * (c) under such a prefix (and for server-prefixed replies under a short server name, and for lines without
   prefix) the command token of the rendered line is exactly the command.
+* (d) *every* line of every handler (client and services), of `processMessage`, of every entry and of every
+  history has a command (`C15_client_entry_has_command`, `C15_delete_entry_has_command`,
+  `C15_services_entry_has_command`, `C15_history_lines_have_command`), by a self-contained invariant `KInv` that
+  bounds every stored prefix; the theorems marked `_partial` are the earlier, weaker forms.
 
 Assumptions about services (trusted): the prefix of a services *link* is what its `SERVER` line says
 (`cmdServer`, not bounded in the model) and pseudo-clients introduced by services (`reply ≠ 0`) get a user name
@@ -415,7 +420,8 @@ classification of C12 characterises keeps its command: the lines relayed under t
 QUIT, KICK, TOPIC, MODE, INVITE), the victim's QUIT of a KILL (`victim`, if the victim is a client session) and
 the closing ERROR (`error`).  Not covered (`other`): numeric replies, server notices and lines for services,
 whose text C12 does not characterise; each of them is server-prefixed, so `C15_server_reply_has_command`
-applies to it, but the walk through the handlers that says so is not done. -/
+applies to it; the walk through the handlers that says so is (d) below (`C15_client_handler_has_command`,
+`C15_client_entry_has_command`). -/
 theorem C15_client_lines_have_command_partial (st : St) (h : GPUInv st) (sid : Id) (s : Session)
     (hs : AMap.get st.sessions sid = some s) (hsrv : s.server = false) (h0 : sid.reply = 0)
     (hid : sid.id < 2 ^ 64) (m : IrcMsg) (o : Out) (hl : ClientLine st sid s m o) : LineShape st s o :=
@@ -437,6 +443,162 @@ theorem C15_delete_lines_have_command_partial (st st' : St) (e : Entry) (out : L
     ∃ stH sH, StBk st stH e.session ∧ AMap.get stH.sessions e.session = some sH ∧ Session.Bk s sH ∧
       ∀ o ∈ out, LineShape stH sH o :=
   applyEntry_delete_shapes h he ht hs hsrv hid hr
+
+/-! ### (d) every line has a command
+
+The partial theorems above classify the lines whose text the recipient classification of C12 characterises.  The
+following ones cover *every* line: numeric replies, server notices, lines for services, the lines of the services
+handlers.  They rest on a self-contained invariant `KInv st` (`Proofs/CmdInv.lean`): every stored session has a
+prefix without space of at most 178 bytes (300 for a services link), a nickname without space of at most 31
+bytes, a user name without space of at most 30 characters and a numeric id below `2^64`; the server name has no
+space and at most 63 bytes.  One walk through each of the 41 handlers (`Proofs/CmdClient{A,B,C}.lean`,
+`Proofs/CmdSrv.lean`) shows that it keeps `KInv` and that every line it emits is built under the server prefix,
+without prefix, under a stored prefix, under the bare nickname of a stored session, or under the prefix of the
+line services sent — with a literal command, or (PRIVMSG / NOTICE) the dispatched command.
+
+Assumptions (all about names that services or the operator choose; stated as hypotheses):
+
+* `SrvNameOK st`: the server name has no space and at most 63 bytes;
+* `SrvPrefixOK st` / `Ids64 st` (only to obtain `KInv` from `GPUInv`): stored prefixes and user names of links and
+  pseudo-clients have no space, prefixes at most 300 bytes; session ids are `uint64`;
+* `SvcEntryOK st e`: a line sent by a services *link* has a prefix without space of at most 160 bytes, and the
+  user name (fourth parameter) of its `NICK` lines has no space;
+* `EntryNamesOK e` (only for keeping `KInv`): `CreateSession` ids are `uint64`, and a `SERVER` line announces a name
+  of at most 300 bytes. -/
+
+/-- the empty state satisfies the invariant -/
+theorem C15_prefixes_bounded_init : KInv ({} : St) := KInv_init
+
+/-- `KInv` follows from the invariants above and the assumptions on services' sessions -/
+theorem C15_prefixes_bounded_of_invariants (st : St) (h : GPUInv st) (hn : SrvNameOK st) (hs : SrvPrefixOK st)
+    (hid : Ids64 st) : KInv st := KInv.of_gpu h hn hs hid
+
+/-- … and gives the assumption on services' sessions back (so it is kept by everything that keeps `KInv`) -/
+theorem C15_srvPrefixOK_kept (st : St) (h : KInv st) : SrvPrefixOK st := h.srvPrefixOK
+
+/-- read off the invariant: *every* stored prefix (clients, pseudo-clients, links) has no space and at most 300
+bytes — 178 unless the session is a services link -/
+theorem C15_prefix_bounded_all (st : St) (h : KInv st) (sid : Id) (s : Session)
+    (hs : AMap.get st.sessions sid = some s) :
+    Spaceless s.ircPrefix.str ∧ s.ircPrefix.str.utf8ByteSize ≤ 300 ∧
+      (s.server = false → s.ircPrefix.str.utf8ByteSize ≤ 178) := by
+  have k := h.get hs
+  have h1 := k.pfxLen
+  have h2 := pfxCap_le s
+  refine ⟨k.pfxSp, by omega, fun hf => ?_⟩
+  unfold pfxCap at h1
+  rw [hf] at h1
+  exact h1
+
+/-- **all handlers**: every handler of the command table — client and services handlers — keeps `KInv` and
+appends only lines with a command, given `HArgs` (what the dispatch of `processMessage` establishes about the
+message, plus the assumptions on lines of services) -/
+theorem C15_handler_has_command (fname : String) (h : Handler) (hh : handlerByName fname = some h)
+    (c c' : Ctx) (sid : Id) (m : IrcMsg) (hk : KInv c.st) (ha : HArgs fname c sid m) (hr : h c sid m = .ok c') :
+    KInv c'.st ∧ ∃ new, c'.out = c.out ++ new ∧ ∀ o ∈ new, HasCommand o.data :=
+  have k := handler_kstep hh (KStep.start hk) ha hr
+  ⟨k.inv, k.out⟩
+
+/-- **client handlers**: for every handler of the table other than the services handlers `cmdServer…`, under the
+invariants of a reachable state, a short server name and the assumptions on services' sessions; the actor a
+stored client session; the message with a good command (`C15_dispatched_command_good`) and middle parameters
+without space (`C15_parsed_midOK`); USER with two parameters (the table demands three) — every new line has a
+command: relayed lines, numeric replies, server notices, lines for services -/
+theorem C15_client_handler_has_command (fname : String) (h : Handler) (hh : handlerByName fname = some h)
+    (hcl : clientHandler fname = true) (c c' : Ctx) (sid : Id) (m : IrcMsg) (s : Session) (hg : GPUInv c.st)
+    (hn : SrvNameOK c.st) (hsp : SrvPrefixOK c.st) (hid : Ids64 c.st)
+    (hs : AMap.get c.st.sessions sid = some s) (hsrv : s.server = false) (hcmd : GoodCmd m.command)
+    (hmid : MidOK m) (hu : fname = "cmdUser" → 2 ≤ m.params.length) (hr : h c sid m = .ok c') :
+    ∃ new, c'.out = c.out ++ new ∧ ∀ o ∈ new, HasCommand o.data :=
+  (client_handler_hc hh hcl (KInv.of_gpu hg hn hsp hid) hs hsrv hcmd hmid hu hr).2
+
+/-- all 26 client handlers qualify, the 15 services handlers do not -/
+example : ["cmdAway", "cmdServiceAlias", "cmdGline", "cmdInvite", "cmdIson", "cmdJoin", "cmdKick", "cmdKill",
+      "cmdKnock", "cmdList", "cmdMode", "cmdMotd", "cmdNames", "cmdNick", "cmdOper", "cmdPart", "cmdPass",
+      "cmdPing", "cmdPrivmsg", "cmdQuit", "cmdTopic", "cmdUser", "cmdUserhost", "cmdWho", "cmdWhois"].all
+      clientHandler = true ∧
+    ["cmdServer", "cmdServerInvite", "cmdServerJoin", "cmdServerKick", "cmdServerKill", "cmdServerMode",
+      "cmdServerNick", "cmdServerPrivmsg", "cmdServerPart", "cmdServerQuit", "cmdServerSvshold", "cmdServerSvsjoin",
+      "cmdServerSvsmode", "cmdServerSvsnick", "cmdServerSvspart", "cmdServerTopic"].all
+      (fun f => !clientHandler f) = true := by decide
+
+/-- **`ProcessMessage`**: the 421 / 451 / 461 replies, the `ERROR` of a banned or never-registered session and all
+lines of the handler have a command (`hsvc`: the assumption on the line if the acting session is a link); `KInv`
+is kept if a `SERVER` line announces a short name -/
+theorem C15_processMessage_has_command (c c' : Ctx) (e : Entry) (im : Option IrcMsg) (hk : KInv c.st)
+    (hp : Pre c e.session) (hn : NI c.st) (hmid : ∀ m, im = some m → MidOK m)
+    (hsvc : ∀ m s, im = some m → AMap.get c.st.sessions e.session = some s → s.server = true → SvcLineOK m)
+    (hr : processMessage c e im = .ok c') :
+    (∃ new, c'.out = c.out ++ new ∧ ∀ o ∈ new, HasCommand o.data) ∧
+      ((∀ m, im = some m → ServerLineOK m) → KInv c'.st) :=
+  processMessage_kstep (KStep.start hk) hp hn hmid hsvc hr
+
+/-- **one committed entry of any type, any session**: every line of its output batch has a command -/
+theorem C15_entry_has_command (st st' : St) (e : Entry) (out : List Out) (h : GInv st) (hk : KInv st)
+    (he : EntryOk st e) (hs : SvcEntryOK st e) (hr : applyEntry st e = .ok (st', out)) :
+    ∀ o ∈ out, HasCommand o.data :=
+  (applyEntry_kinv st st' e out h hk he hs hr).1
+
+/-- … and the invariant is kept -/
+theorem C15_entry_keeps_prefixes (st st' : St) (e : Entry) (out : List Out) (h : GInv st) (hk : KInv st)
+    (he : EntryOk st e) (hs : SvcEntryOK st e) (hn : EntryNamesOK e) (hr : applyEntry st e = .ok (st', out)) :
+    KInv st' :=
+  (applyEntry_kinv st st' e out h hk he hs hr).2 hn
+
+/-- **an entry of a client session** (`IRCFromClient`; also `DeleteSession`, see below): *every* line it causes —
+the gate replies, the `ERROR` lines, the relayed lines, numeric replies, notices, lines for services — has a
+command.  No assumption on the posted text. -/
+theorem C15_client_entry_has_command (st st' : St) (e : Entry) (out : List Out) (s : Session) (h : GPUInv st)
+    (hn : SrvNameOK st) (hsp : SrvPrefixOK st) (hid : Ids64 st) (he : EntryOk st e)
+    (hs : AMap.get st.sessions e.session = some s) (hsrv : s.server = false)
+    (hr : applyEntry st e = .ok (st', out)) : ∀ o ∈ out, HasCommand o.data :=
+  C15_entry_has_command st st' e out h.ginv (KInv.of_gpu h hn hsp hid) he
+    (fun _ m s' _ hs' hsrv' => by rw [hs] at hs'; cases hs'; rw [hsrv] at hsrv'; cases hsrv') hr
+
+/-- **a `DeleteSession` entry** (of any session): the `QUIT` the server generates, and the closing `ERROR` -/
+theorem C15_delete_entry_has_command (st st' : St) (e : Entry) (out : List Out) (h : GPUInv st)
+    (hn : SrvNameOK st) (hsp : SrvPrefixOK st) (hid : Ids64 st) (he : EntryOk st e) (ht : e.type = 1)
+    (hr : applyEntry st e = .ok (st', out)) : ∀ o ∈ out, HasCommand o.data :=
+  C15_entry_has_command st st' e out h.ginv (KInv.of_gpu h hn hsp hid) he
+    (fun ht2 => by rw [ht] at ht2; cases ht2) hr
+
+/-- **an `IRCFromClient` entry of a services link**: every line it causes has a command, given the assumption on
+the line -/
+theorem C15_services_entry_has_command (st st' : St) (e : Entry) (out : List Out) (h : GPUInv st)
+    (hn : SrvNameOK st) (hsp : SrvPrefixOK st) (hid : Ids64 st) (he : EntryOk st e)
+    (hl : ∀ m, parseMessage e.data = some m → SvcLineOK m)
+    (hr : applyEntry st e = .ok (st', out)) : ∀ o ∈ out, HasCommand o.data :=
+  C15_entry_has_command st st' e out h.ginv (KInv.of_gpu h hn hsp hid) he (fun _ m _ hm _ _ => hl m hm) hr
+
+/-- for a line as the parser delivers it, the assumption on lines of services reduces to lengths: the prefix ends
+at the first space (so it contains none), and the user name of a `NICK` line with its nine parameters is not the
+trailing one; what remains is that the prefix has at most 160 bytes -/
+theorem C15_services_line_ok (raw : String) (m : IrcMsg) (hp : parseMessage raw = some m)
+    (hl : ∀ p, m.pfx = some p → p.str.utf8ByteSize ≤ 160)
+    (hn : toUpper m.command = "NICK" → 5 ≤ m.params.length) : SvcLineOK m :=
+  SvcLineOK.of_parsed hp hl hn
+
+/-- **histories**: starting from the empty state, every line of every output batch produced along a well-formed
+history whose entries satisfy the assumptions (relative to the state they are applied to) has a command, and the
+final state satisfies `KInv` -/
+theorem C15_history_lines_have_command (es : List Entry) (st : St) (outs : List Out) (hw : WfHistory {} es)
+    (ha : ArgsHistory {} es) (hr : runLines {} es = .ok (st, outs)) :
+    KInv st ∧ ∀ o ∈ outs, HasCommand o.data :=
+  runLines_hc GInv_init KInv_init hw ha hr
+
+/-- … in particular when every entry satisfies the state-independent form `EntryLineOK` of the assumptions -/
+theorem C15_history_lines_have_command' (es : List Entry) (st : St) (outs : List Out) (hw : WfHistory {} es)
+    (ha : ∀ e ∈ es, EntryLineOK e) (hr : runLines {} es = .ok (st, outs)) :
+    KInv st ∧ ∀ o ∈ outs, HasCommand o.data :=
+  runLines_hc GInv_init KInv_init hw (ArgsHistory.of_all ha _) hr
+
+/-- a posted line without prefix that is neither `SERVER` nor `NICK` satisfies the assumptions whatever it says -/
+theorem C15_plain_line_ok (e : Entry) (hid : e.type = 0 → e.id < 2 ^ 64)
+    (hl : ∀ m, parseMessage e.data = some m → m.pfx = none ∧ toUpper m.command ≠ "SERVER" ∧
+      toUpper m.command ≠ "NICK") : EntryLineOK e :=
+  ⟨hid, fun _ m hm =>
+    have ⟨h1, h2, h3⟩ := hl m hm
+    ⟨fun hc => absurd hc h2, ⟨fun p hp => (by rw [h1] at hp; cases hp), fun hc => absurd hc h3⟩⟩⟩
 
 /-! ### non-vacuity -/
 
@@ -537,6 +699,67 @@ example : ∃ st' out, applyEntry demoSt (demoEntry "PRIVMSG #c :hi there") = .o
     decide +kernel
   | panic s => have h := demo_relay; rw [hr] at h; cases h
   | declined s => have h := demo_relay; rw [hr] at h; cases h
+
+/-! #### non-vacuity of (d) -/
+
+/-- the Boolean form of "every line has a command" -/
+def allHaveCommand (l : List Bytes) : Bool := l.all fun b => decide (HasCommand b)
+
+/-- the demo state satisfies `KInv` -/
+theorem demoSt_kinv : KInv demoSt := KInv.of_all (by decide +kernel) (by decide)
+
+/-- … and the hypotheses of `C15_client_entry_has_command` -/
+theorem demoSt_hyps : SrvNameOK demoSt ∧ SrvPrefixOK demoSt ∧ Ids64 demoSt := by
+  refine ⟨demoSt_kinv.name, demoSt_kinv.srvPrefixOK, fun id s hg => ?_⟩
+  have hm := AMap.mem_of_get hg
+  simp only [demoSt, List.mem_cons, List.not_mem_nil, or_false, Prod.mk.injEq] at hm
+  rcases hm with ⟨rfl, _⟩ | ⟨rfl, _⟩ <;> decide
+
+/-- `JOIN #d` by alice: the relayed JOIN, `MODE +nt`, the `SJOIN` for services and the numeric replies 324, 331,
+353, 366 — seven lines, each with a command -/
+theorem demo_join : outData (applyEntry demoSt (demoEntry "JOIN #d")) =
+      [utf8 ":alice!a@robust/0x1 JOIN #d", utf8 ":robustirc.net MODE #d +nt", utf8 ":robustirc.net SJOIN 1 #d @alice",
+       utf8 ":robustirc.net 324 alice #d +nt", utf8 ":robustirc.net 331 alice #d :No topic is set",
+       utf8 ":robustirc.net 353 alice = #d @alice", utf8 ":robustirc.net 366 alice #d :End of /NAMES list."] ∧
+    allHaveCommand (outData (applyEntry demoSt (demoEntry "JOIN #d"))) = true := by
+  constructor <;> decide +kernel
+
+/-- `TOPIC #c :hello`: the relayed TOPIC and the line for services under the bare nickname; `FOO bar`: the 421 -/
+example : outData (applyEntry demoSt (demoEntry "TOPIC #c :hello")) =
+      [utf8 ":alice!a@robust/0x1 TOPIC #c hello", utf8 ":alice TOPIC #c alice 0 hello"] ∧
+    allHaveCommand (outData (applyEntry demoSt (demoEntry "TOPIC #c :hello"))) = true ∧
+    outData (applyEntry demoSt (demoEntry "FOO bar")) = [utf8 ":robustirc.net 421 alice FOO :Unknown command"] ∧
+    allHaveCommand (outData (applyEntry demoSt (demoEntry "FOO bar"))) = true := by
+  refine ⟨?_, ?_, ?_, ?_⟩ <;> decide +kernel
+
+/-- the hypotheses of `C15_client_entry_has_command` are satisfiable and its conclusion speaks about the seven
+lines of `demo_join` -/
+example : ∃ st' out, applyEntry demoSt (demoEntry "JOIN #d") = .ok (st', out) ∧ out.length = 7 ∧
+    ∀ o ∈ out, HasCommand o.data := by
+  cases hr : applyEntry demoSt (demoEntry "JOIN #d") with
+  | ok r =>
+    obtain ⟨st', out⟩ := r
+    have hd := demo_join.1
+    rw [hr] at hd
+    simp only [outData] at hd
+    refine ⟨st', out, rfl, ?_, C15_client_entry_has_command demoSt st' _ out (demoSt.sessions.head!).2 demoSt_gpu
+      demoSt_hyps.1 demoSt_hyps.2.1 demoSt_hyps.2.2 (demoEntry_ok _) rfl rfl hr⟩
+    have := congrArg List.length hd
+    simpa using this
+  | panic s => have h := demo_join.1; rw [hr] at h; cases h
+  | declined s => have h := demo_join.1; rw [hr] at h; cases h
+
+/-- the assumption on lines of services cannot be dropped: under a `servicesPrefix` whose name has 509 bytes the
+relayed line loses its command -/
+example (cmd : String) (params : List String) :
+    ¬ HasCommand (IrcMsg.mk (some ⟨String.ofList (List.replicate 509 'x'), "", ""⟩) cmd params).render := by
+  refine C15_long_prefix_no_command _ _ rfl ?_ ?_
+  · exact (bare_prefix_bounds (a := 509) (spaceless_ofList fun c hc => by rw [(List.mem_replicate.1 hc).2]; decide)
+      (by decide +kernel)).1
+  · have e : (Prefix.str ⟨String.ofList (List.replicate 509 'x'), "", ""⟩) = String.ofList (List.replicate 509 'x') := by
+      decide +kernel
+    rw [e]
+    decide +kernel
 
 /-! ## non-vacuity (byte level) -/
 
